@@ -250,8 +250,63 @@ def parseJSONResets : Bool := %v
 // buf translates a buffer-building function in continuation style into `Option (List UInt8)`.
 type buf struct {
 	t       *tr
-	name    string            // the buffer variable
+	p       *pkg
+	name    string            // the buffer variable (found at its `var X bytes.Buffer` declaration)
 	marshal map[string]string // argument text of json.Marshal -> oracle
+}
+
+// helperWrites inlines a call `f(&buf, args...)` of an unexported function of the package whose body
+// only writes to its first parameter: one `let buf := buf ++ ..` line per write.
+func (b *buf) helperWrites(call *ast.CallExpr, ind string) (string, bool) {
+	id, ok := call.Fun.(*ast.Ident)
+	if !ok || ast.IsExported(id.Name) || len(call.Args) < 1 || src(call.Args[0]) != "&"+b.name {
+		return "", false
+	}
+	fd, _ := findFunc(b.p, "", id.Name)
+	if fd == nil || fd.Body == nil {
+		return "", false
+	}
+	var params []string
+	for _, f := range fd.Type.Params.List {
+		for _, n := range f.Names {
+			params = append(params, n.Name)
+		}
+	}
+	if len(params) != len(call.Args) {
+		return "", false
+	}
+	atoms := map[string]string{}
+	for k, v := range b.t.atoms {
+		atoms[k] = v
+	}
+	for i := 1; i < len(params); i++ {
+		atoms[params[i]] = b.t.expr(call.Args[i])
+	}
+	ht := &tr{atoms: atoms, c: b.t.c, funcs: b.t.funcs, who: b.t.who + ":" + id.Name}
+	var sb strings.Builder
+	for _, st := range fd.Body.List {
+		es, ok := st.(*ast.ExprStmt)
+		if !ok {
+			fail("%s: helper %s: unsupported statement %q", b.t.who, id.Name, src(st))
+		}
+		c, ok := es.X.(*ast.CallExpr)
+		if !ok || len(c.Args) != 1 {
+			fail("%s: helper %s: unsupported statement %q", b.t.who, id.Name, src(st))
+		}
+		switch src(c.Fun) {
+		case params[0] + ".WriteString", params[0] + ".Write":
+			fmt.Fprintf(&sb, "let %s := %s ++ %s\n%s", b.name, b.name, ht.expr(c.Args[0]), ind)
+		case params[0] + ".WriteByte":
+			n, ok := evalInt(c.Args[0], b.t.c)
+			if !ok || n < 0 || n > 255 {
+				fail("%s: helper %s: WriteByte argument %q", b.t.who, id.Name, src(c.Args[0]))
+			}
+			fmt.Fprintf(&sb, "let %s := %s ++ [(%d : UInt8)]\n%s", b.name, b.name, n, ind)
+		default:
+			fail("%s: helper %s: unsupported statement %q", b.t.who, id.Name, src(st))
+		}
+	}
+	return sb.String(), true
 }
 
 func (b *buf) stmts(list []ast.Stmt, ind string) string {
@@ -261,10 +316,16 @@ func (b *buf) stmts(list []ast.Stmt, ind string) string {
 	s, rest := list[0], list[1:]
 	switch v := s.(type) {
 	case *ast.DeclStmt:
-		if src(v) == "var "+b.name+" bytes.Buffer" {
+		if txt := src(v); b.name == "" && strings.HasPrefix(txt, "var ") && strings.HasSuffix(txt, " bytes.Buffer") {
+			b.name = strings.TrimSuffix(strings.TrimPrefix(txt, "var "), " bytes.Buffer")
 			return "let " + b.name + " : List UInt8 := []\n" + ind + b.stmts(rest, ind)
 		}
 	case *ast.ExprStmt:
+		if call, ok := v.X.(*ast.CallExpr); ok {
+			if lines, ok := b.helperWrites(call, ind); ok {
+				return lines + b.stmts(rest, ind)
+			}
+		}
 		if call, ok := v.X.(*ast.CallExpr); ok && len(call.Args) == 1 {
 			switch src(call.Fun) {
 			case b.name + ".WriteString", b.name + ".Write":
@@ -338,7 +399,7 @@ func emitToJSON(fs *strings.Builder, p *pkg, c *consts, funcs map[string]string)
 		fail("jmessage.toJSON not found")
 	}
 	atoms := map[string]string{"j.ID": "id", "j.M": "m", "j.P": "p", "j.R": "r", "j.E": "e", `""`: "([] : List UInt8)"}
-	b := &buf{t: &tr{atoms: atoms, c: c, funcs: funcs, who: file + ":toJSON"}, name: "sb",
+	b := &buf{t: &tr{atoms: atoms, c: c, funcs: funcs, who: file + ":toJSON"}, p: p,
 		marshal: map[string]string{"j.M": "marshalStr", "j.E": "marshalErr"}}
 	fmt.Fprintf(fs, "/-- %s: `jmessage.toJSON` as a whole; `marshalStr` / `marshalErr` are `json.Marshal` of the method name / the error value -/\n"+
 		"def toJSON {E : Type} (id m p r : List UInt8) (e : Option E) (marshalStr : List UInt8 → Option (List UInt8)) (marshalErr : Option E → Option (List UInt8)) : Option (List UInt8) :=\n  %s\n\n",
